@@ -1,22 +1,33 @@
-import SamplyModel.Model.ConvSpec
+import SamplyModel.Lemmas.LifeStep
 /-!
-# C17 — process / thread names and lifetimes follow COMM, EXEC, FORK and EXIT (first instalment)
+# C17 — process / thread names and lifetimes follow COMM, EXEC, FORK and EXIT
 
-Model: `Model/Converter.lean`. Specification side: `ConvSpec.Life` — the eager reading of the record
-history (incarnations found by search, no handles), under the record grammar `Life.grammarOk`.
+Model: `Model/Converter.lean` + the output abstraction `views` of `Model/ConvFlush.lean`. Specification side:
+`ConvSpec.Life` — the eager reading of the record history (incarnations found by search, no handles), under the
+record grammar `Life.grammarOk`.
 
-Full statement (judged on samply's output on every run by `ConvJudge.judgeC17`, and the target of the
-refinement proof under construction):
+Main theorem (`C17_refines`): with default options (`reuse = false`) and a grammatical history,
 
-    cfg.reuse = false → Life.grammarOk cfg.ref rs = true →
-    (views (run cfg rs)).map rowOf  ~  Life.rows (Life.run cfg.ref rs)        (List.Perm)
+    (views (run cfg rs)).map C17_rowOf = Life.rows (Life.run cfg.ref rs)
 
-Proved so far (each for every state, i.e. also every reachable one): what the individual record handlers
-do to the entry tables — an EXIT stamps the end time of exactly the thread entry bound to (pid, tid)
-(`C17_thread_exit_sets_end`),
-a COMM renames exactly the thread entry bound to (pid, tid) (`C17_comm_renames_thread`,
-`C17_comm_same_name_noop`), placeholder names (`C17_placeholders`). Missing: the lift to whole
-histories (one simulation invariant between handles and incarnations).
+as *lists* — both sides create entries in the same order. The proof is a simulation (`Lemmas/LifeSim.lean`:
+`Sim s l` = the entry tables are the incarnation tables, the suffix counters count incarnations, and the handles
+stored in the process table point exactly at the alive incarnations; `Lemmas/LifeStep.lean`: every record
+handler preserves it, the grammar makes the back-dating branches of `recycle_or_get_new{,_thread}` unreachable).
+Of the grammar only the FORK clauses (child not bound, `tid ≠ pid`, `tid ≠ ptid`) and "EXEC only on main
+threads" are used; the `dead` bookkeeping and the EXIT clause are not needed for the refinement.
+
+The property text itself is restated on the specification side, for every state, by
+`C17_spec_comm_sets_name`, `C17_spec_fork_inherits_name`, `C17_spec_fork_inherits_process_name`,
+`C17_spec_fork_sets_start`, `C17_spec_exit_sets_end`, `C17_spec_exec_splits` (+ `C17_spec_alive_unique` for the
+one hypothesis of its last clause).
+
+Specification fix found by the proof: an executable MMAP2 for an unbound pid creates the process entry
+(`add_module_to_process → get_by_pid`) even before the first sample / with an empty path; `Life.step` now says
+so (regression `example` below).
+
+First instalment (kept): what the individual record handlers do to the entry tables, for every state —
+`C17_thread_exit_sets_end`, `C17_comm_renames_thread`, `C17_comm_same_name_noop`, `C17_placeholders`.
 -/
 open Conv ConvSpec
 
@@ -106,3 +117,224 @@ example : (views (run { ref := 12 } C17_exHistory)).map (fun v => [v.pid, v.tid,
      ["200.1", "200.1", "child", "child"], ["100", "101", "worker", "parent"]] := by decide
 example : (views (run { ref := 12 } C17_exHistory)).map (fun v => (v.start, v.end_)) =
     [(0, none), (1, some 2), (2, some 9), (4, some 7)] := by decide
+
+/-! ### The refinement -/
+
+def C17_rowOf (v : View) : Life.Row :=
+  { pid := v.pid, tid := v.tid, isMain := v.isMain, name := v.name, processName := v.processName,
+    start := v.start, end_ := v.end_, pstart := v.pstart, pend := v.pend }
+
+/-- default options + kernel record grammar: the converter's thread entries, with their names and
+    lifetimes, are exactly the incarnations of the eager reading of the history, in creation order -/
+theorem C17_refines (cfg : Config) (rs : List Rec) (hr : cfg.reuse = false)
+    (hg : Life.grammarOk cfg.ref rs = true) :
+    (views (run cfg rs)).map C17_rowOf = Life.rows (Life.run cfg.ref rs) :=
+  LifeL.views_rows (LifeL.sim_run cfg rs hr hg)
+
+/-- regression: an executable MMAP2 for an unbound pid before the first sample creates the process entry on
+both sides (the eager specification originally created nothing here) -/
+example : Life.grammarOk 0 [.mmap2 5 5 0x1000 0x1000 0 true "lib" 3] = true ∧
+    (views (run {} [.mmap2 5 5 0x1000 0x1000 0 true "lib" 3])).map C17_rowOf =
+      Life.rows (Life.run 0 [.mmap2 5 5 0x1000 0x1000 0 true "lib" 3]) ∧
+    (Life.rows (Life.run 0 [.mmap2 5 5 0x1000 0x1000 0 true "lib" 3])).map (fun r => [r.pid, r.tid, r.name]) =
+      [["5", "5", "<5>"]] := by decide
+
+/-! ### The property text, on the specification side (`Life.step`, every state) -/
+open LifeL
+
+/-- a non-exec COMM for a live (pid, tid): the bindings are unchanged, the current thread incarnation takes the
+COMM name, and for a main thread (pid = tid) the current process incarnation takes it too -/
+theorem C17_spec_comm_sets_name (s : Life.S) (pid tid : Nat) (name : String) (t pi i : Nat)
+    (hp : Life.curProc s pid = some pi) (ht : Life.curThread s pi tid = some i) :
+    Life.curProc (Life.step s (.comm pid tid name false t)) pid = some pi ∧
+    Life.curThread (Life.step s (.comm pid tid name false t)) pi tid = some i ∧
+    Life.threadName (Life.step s (.comm pid tid name false t)) i = some name ∧
+    (pid = tid → Life.procName (Life.step s (.comm pid tid name false t)) pi = some name) := by
+  obtain ⟨x, hx, _⟩ := findIdx_some ht
+  obtain ⟨y, hy, _⟩ := findIdx_some hp
+  have key : Life.step s (.comm pid tid name false t) =
+      if pid = tid then Life.modT (Life.modP s pi (fun p => { p with name := some name })) i
+        (fun t => { t with name := some name })
+      else Life.modT s i (fun t => { t with name := some name }) := by
+    by_cases hpt : pid = tid
+    · subst hpt
+      rw [lstep_comm_main, hp, if_pos rfl]
+      simp only [curThread_modP, ht]
+    · rw [lstep_comm_thread _ _ _ _ _ hpt, if_neg hpt]
+      have : Life.ensureProc s pid = (s, pi) := by unfold Life.ensureProc; rw [hp]
+      rw [this]
+      simp only [ht]
+  have hcp : ∀ (s' : Life.S), Life.curProc (Life.modT s' i (fun t => { t with name := some name })) pid =
+      Life.curProc s' pid := fun _ => rfl
+  have hct : ∀ (s' : Life.S), Life.curThread (Life.modT s' i (fun t => { t with name := some name })) pi tid =
+      Life.curThread s' pi tid := by
+    intro s'
+    unfold Life.curThread Life.modT
+    exact findIdx_modifyNth _ _ _ _ (fun _ => rfl)
+  have hcpP : Life.curProc (Life.modP s pi (fun p => { p with name := some name })) pid = Life.curProc s pid := by
+    unfold Life.curProc Life.modP
+    exact findIdx_modifyNth _ _ _ _ (fun _ => rfl)
+  rw [key]
+  by_cases hpt : pid = tid
+  · simp only [if_pos hpt, hcp, hct, curThread_modP, hcpP]
+    refine ⟨hp, ht, ?_, fun _ => ?_⟩
+    · simp only [Life.threadName, Life.modT, Life.modP, getElem?_modifyNth_self _ hx, Option.bind_some]
+    · simp only [Life.procName, Life.modT, Life.modP, getElem?_modifyNth_self _ hy, Option.bind_some]
+  · simp only [if_neg hpt, hcp, hct]
+    refine ⟨hp, ht, ?_, fun h => absurd h hpt⟩
+    simp only [Life.threadName, Life.modT, getElem?_modifyNth_self _ hx, Option.bind_some]
+
+/-- FORK of a thread in a live process by a live thread (child not bound): one thread incarnation is appended;
+it carries the forking thread's current name, starts at the FORK time relative to the reference, has no end
+time and gets the next free suffix of its tid. Nothing else changes. -/
+theorem C17_spec_fork_inherits_name (s : Life.S) (pid tid ptid t pi i : Nat)
+    (hp : Life.curProc s pid = some pi) (ht : Life.curThread s pi ptid = some i)
+    (hn : Life.curThread s pi tid = none) :
+    (Life.step s (.fork pid tid pid ptid t)).ts = s.ts ++
+      [{ pinc := pi, tid := tid, suffix := Life.countT s tid, name := Life.threadName s i, start := t - s.ref,
+         end_ := none, alive := true, isMain := false }] ∧
+    (Life.step s (.fork pid tid pid ptid t)).ps = s.ps := by
+  have he : Life.ensureProc s pid = (s, pi) := by unfold Life.ensureProc; rw [hp]
+  have het : Life.ensureThread s pid ptid = s := by rw [ensureThread_eq hp, ht]
+  rw [lstep_fork, if_neg (by simp), he]
+  simp only [het, hn, ht, Option.bind_some]
+  exact ⟨rfl, rfl⟩
+
+/-- FORK of a process by a live process (child pid not bound): one process incarnation and its main thread are
+appended; both carry the parent *process* name (not the forking thread's), start at the FORK time relative to the
+reference, and get the next free suffix. -/
+theorem C17_spec_fork_inherits_process_name (s : Life.S) (pid tid ppid ptid t ppi : Nat) (hne : pid ≠ ppid)
+    (hp : Life.curProc s ppid = some ppi) (hn : Life.curProc s pid = none) :
+    (Life.step s (.fork pid tid ppid ptid t)).ps = s.ps ++
+      [{ pid := pid, suffix := Life.countP s pid, name := Life.procName s ppi, start := t - s.ref, end_ := none,
+         alive := true }] ∧
+    (Life.step s (.fork pid tid ppid ptid t)).ts = s.ts ++
+      [{ pinc := s.ps.length, tid := pid, suffix := Life.countT s pid, name := Life.procName s ppi,
+         start := t - s.ref, end_ := none, alive := true, isMain := true }] := by
+  have he : Life.ensureProc s ppid = (s, ppi) := by unfold Life.ensureProc; rw [hp]
+  rw [lstep_fork, if_pos hne, he]
+  simp only [hn]
+  exact ⟨rfl, rfl⟩
+
+/-- lifetimes start at the FORK time (relative to the reference, saturating): the incarnation a FORK creates is
+the last one of its table and has `start = t - ref`, no end time, and is alive. -/
+theorem C17_spec_fork_sets_start (s : Life.S) (pid tid ppid ptid t : Nat) :
+    (∀ pi i, pid = ppid → Life.curProc s pid = some pi → Life.curThread s pi ptid = some i →
+      Life.curThread s pi tid = none →
+      ∃ x, (Life.step s (.fork pid tid ppid ptid t)).ts[s.ts.length]? = some x ∧ x.tid = tid ∧ x.pinc = pi ∧
+        x.start = t - s.ref ∧ x.end_ = none ∧ x.alive = true) ∧
+    (∀ ppi, pid ≠ ppid → Life.curProc s ppid = some ppi → Life.curProc s pid = none →
+      ∃ x y, (Life.step s (.fork pid tid ppid ptid t)).ps[s.ps.length]? = some x ∧
+        (Life.step s (.fork pid tid ppid ptid t)).ts[s.ts.length]? = some y ∧ x.pid = pid ∧ y.tid = pid ∧
+        y.pinc = s.ps.length ∧ y.isMain = true ∧ x.start = t - s.ref ∧ y.start = t - s.ref ∧ x.end_ = none ∧
+        y.end_ = none ∧ x.alive = true ∧ y.alive = true) := by
+  refine ⟨?_, ?_⟩
+  · intro pi i he hp ht hn
+    subst he
+    rw [(C17_spec_fork_inherits_name s pid tid ptid t pi i hp ht hn).1]
+    exact ⟨_, getElem?_concat_len _ _, rfl, rfl, rfl, rfl, rfl⟩
+  · intro ppi hne hp hn
+    obtain ⟨h1, h2⟩ := C17_spec_fork_inherits_process_name s pid tid ppid ptid t ppi hne hp hn
+    rw [h1, h2]
+    exact ⟨_, _, getElem?_concat_len _ _, getElem?_concat_len _ _, rfl, rfl, rfl, rfl, rfl, rfl, rfl, rfl, rfl, rfl⟩
+
+/-- lifetimes end at the EXIT time (relative to the reference):
+* EXIT of a bound non-main thread stamps exactly its current incarnation and retires it;
+* EXIT of a main thread stamps the current process incarnation and every alive thread incarnation of it, and
+  touches nothing else. -/
+theorem C17_spec_exit_sets_end (s : Life.S) (pid tid t pi : Nat) (hp : Life.curProc s pid = some pi) :
+    (∀ i, pid ≠ tid → Life.curThread s pi tid = some i →
+      (Life.step s (.exit pid tid t)).ts =
+        modifyNth s.ts i (fun x => { x with end_ := some (t - s.ref), alive := false }) ∧
+      (Life.step s (.exit pid tid t)).ps = s.ps) ∧
+    (pid = tid →
+      (Life.step s (.exit pid tid t)).ps =
+        modifyNth s.ps pi (fun x => { x with end_ := some (t - s.ref), alive := false }) ∧
+      (Life.step s (.exit pid tid t)).ts =
+        s.ts.map (fun x => if x.alive && x.pinc == pi then { x with end_ := some (t - s.ref), alive := false } else x)) := by
+  have he : Life.ensureProc s pid = (s, pi) := by unfold Life.ensureProc; rw [hp]
+  refine ⟨?_, ?_⟩
+  · intro i hne ht
+    rw [lstep_exit, if_neg hne, he]
+    simp only [ht]
+    exact ⟨rfl, rfl⟩
+  · intro heq
+    rw [lstep_exit, if_pos heq, hp]
+    exact ⟨rfl, rfl⟩
+
+/-- EXEC on a main thread splits the process: the current process incarnation (and its threads) end at the
+COMM time, and a new incarnation of the same pid opens at that time under the exec name, with the next pid
+suffix (`> 0`, so it renders as `pid.k`) and its own main thread; the two are different entries, and — when the
+ended incarnation was the only alive one of that pid, as in every reachable state (`C17_spec_alive_unique`) —
+records after the EXEC resolve to the new entry. -/
+theorem C17_spec_exec_splits (s : Life.S) (pid : Nat) (name : String) (t pi : Nat) (x : Life.PInc)
+    (hp : Life.curProc s pid = some pi) (hx : s.ps[pi]? = some x) :
+    (Life.step s (.comm pid pid name true t)).ps[pi]? =
+      some { x with end_ := some ((if t = 0 then s.cur else t) - s.ref), alive := false } ∧
+    (Life.step s (.comm pid pid name true t)).ps[s.ps.length]? =
+      some { pid := pid, suffix := Life.countP s pid, name := some name,
+             start := (if t = 0 then s.cur else t) - s.ref, end_ := none, alive := true } ∧
+    (Life.step s (.comm pid pid name true t)).ts[s.ts.length]? =
+      some { pinc := s.ps.length, tid := pid, suffix := Life.countT s pid, name := some name,
+             start := (if t = 0 then s.cur else t) - s.ref, end_ := none, alive := true, isMain := true } ∧
+    pi ≠ s.ps.length ∧ 0 < Life.countP s pid ∧
+    ((∀ (j : Nat) (y : Life.PInc), s.ps[j]? = some y → y.alive = true → y.pid = pid → j = pi) →
+      Life.curProc (Life.step s (.comm pid pid name true t)) pid = some s.ps.length) := by
+  have hlt : pi < s.ps.length := lt_of_getElem?_some hx
+  obtain ⟨x', hx', hq⟩ := findIdx_some hp
+  rw [hx] at hx'; cases hx'
+  simp only [Bool.and_eq_true, beq_iff_eq] at hq
+  rw [lstep_comm_exec_main, hp]
+  have hcnt : Life.countP (Life.endProc s pi (Life.conv s (if t = 0 then s.cur else t))) pid = Life.countP s pid := by
+    simp only [Life.countP, Life.endProc, Life.modP]
+    exact filter_modifyNth_length _ _ _ _ (by intro y; rfl)
+  have hcntT : Life.countT (Life.endProc s pi (Life.conv s (if t = 0 then s.cur else t))) pid = Life.countT s pid := by
+    simp only [Life.countT, Life.endProc, Life.modP]
+    refine filter_map_length _ _ _ (fun y => ?_)
+    split <;> rfl
+  simp only [Life.newProc, hcnt, hcntT]
+  simp only [Life.endProc, Life.modP, Life.conv]
+  refine ⟨?_, ?_, ?_, Nat.ne_of_lt hlt, ?_, ?_⟩
+  · exact getElem?_concat_of_some _ (getElem?_modifyNth_self _ hx)
+  · rw [← length_modifyNth s.ps pi (fun p => { p with end_ := some ((if t = 0 then s.cur else t) - s.ref), alive := false })]
+    exact getElem?_concat_len _ _
+  · rw [length_modifyNth]
+    have := getElem?_concat_len (s.ts.map (fun x => if (x.alive && x.pinc == pi) = true then { x with end_ := some ((if t = 0 then s.cur else t) - s.ref), alive := false } else x)) { pinc := s.ps.length, tid := pid, suffix := Life.countT s pid, name := some name, start := (if t = 0 then s.cur else t) - s.ref, end_ := none, alive := true, isMain := true }
+    rw [List.length_map] at this
+    exact this
+  · unfold Life.countP
+    apply List.length_pos_of_mem (a := x)
+    rw [List.mem_filter]
+    exact ⟨List.mem_of_getElem? hx, by simp [hq.2]⟩
+  · intro hu
+    rw [length_modifyNth]
+    obtain ⟨k, hk⟩ := findIdx_exists (l := modifyNth s.ps pi (fun p => { p with end_ := some ((if t = 0 then s.cur else t) - s.ref), alive := false }) ++ [{ pid := pid, suffix := Life.countP s pid, name := some name, start := (if t = 0 then s.cur else t) - s.ref, end_ := none, alive := true }])
+      (q := fun p => p.alive && p.pid == pid) (getElem?_concat_len _ _) (by simp)
+    unfold Life.curProc
+    simp only
+    rw [hk]
+    obtain ⟨y, hy, hqy⟩ := findIdx_some hk
+    simp only [Bool.and_eq_true, beq_iff_eq] at hqy
+    simp only [getElem?_concat, length_modifyNth] at hy
+    split at hy
+    · rw [getElem?_modifyNth] at hy
+      split at hy
+      · next hpk =>
+        subst hpk
+        rw [hx] at hy
+        simp only [Option.map_some, Option.some.injEq] at hy
+        subst hy
+        simp at hqy
+      · next hpk => exact absurd (hu k y hy hqy.1 hqy.2).symm hpk
+    · split at hy
+      · next hk' => rw [hk']
+      · cases hy
+
+/-- in every state reached by a grammatical history, the alive process incarnation of a pid is unique (it is
+the one `curProc` finds) — the hypothesis of the last clause of `C17_spec_exec_splits` -/
+theorem C17_spec_alive_unique (ref : Nat) (rs : List Rec) (hg : Life.grammarOk ref rs = true) (j : Nat)
+    (y : Life.PInc) (hy : (Life.run ref rs).ps[j]? = some y) (hal : y.alive = true) :
+    Life.curProc (Life.run ref rs) y.pid = some j := by
+  have h := sim_run { ref := ref } rs rfl hg
+  obtain ⟨p, hb, hh⟩ := h.live.backP j y hy hal
+  rw [h.live.curProc_bound hb, hh]
